@@ -400,17 +400,17 @@ func OverlayFor(repoDir, harnessDir string) (map[string]string, error) {
 
 // Task is one unit of work: explore the subtree under Prefix.
 type Task struct {
-	ID        int    `json:"id"`
-	Oblig     int    `json:"oblig"`
-	Harness   string `json:"harness"`
-	Args      []int  `json:"args"`
-	Prefix    []int  `json:"prefix"`
-	MaxPaths  int    `json:"max_paths"`
-	BudgetMs  int    `json:"budget_ms"`
-	PanicViol bool   `json:"panic_viol"` // a panic reaching the harness top is a violation
-	NSamples  int    `json:"nsamples"`
-	PoolMode  int    `json:"pool_mode"` // 0 LIFO, 1 adversarial
-	Props     []string `json:"props"`   // active assertion groups (property ids)
+	ID        int      `json:"id"`
+	Oblig     int      `json:"oblig"`
+	Harness   string   `json:"harness"`
+	Args      []int    `json:"args"`
+	Prefix    []int    `json:"prefix"`
+	MaxPaths  int      `json:"max_paths"`
+	BudgetMs  int      `json:"budget_ms"`
+	PanicViol bool     `json:"panic_viol"` // a panic reaching the harness top is a violation
+	NSamples  int      `json:"nsamples"`
+	PoolMode  int      `json:"pool_mode"` // 0 LIFO, 1 adversarial
+	Props     []string `json:"props"`     // active assertion groups (property ids)
 }
 
 // Sample is a completed path with its model and observations.
@@ -461,14 +461,14 @@ type TaskResult struct {
 
 // Worker holds a loaded program and a solver.
 type Worker struct {
-	P     *Program
-	sol   *solver          // the solver of the current path
-	sols  [2]*solver       // [0] SAT-based core, [1] classic core
-	arith map[string]bool  // obligations that need the classic core
-	tt  *termTable
-	key string // harness+args the term table belongs to
+	P             *Program
+	sol           *solver         // the solver of the current path
+	sols          [2]*solver      // [0] SAT-based core, [1] classic core
+	arith         map[string]bool // obligations that need the classic core
+	tt            *termTable
+	key           string // harness+args the term table belongs to
 	mev, uev, pev evaluator
-	prevDec []int
+	prevDec       []int
 }
 
 func NewWorker(p *Program) *Worker { return &Worker{P: p} }
